@@ -23,6 +23,7 @@ from sa.pyfront import Program
 from sa.symex import Interp, flat_guards
 
 RULES = {
+    "R-C06-s": "set_if removes the key when the value is None or empty: the set-update methods pass it the result of intersection() / difference() / union(), which encode the EMPTY set as None",
     "R-C06-o": "collapsed: the decision structure of the algorithm - entries are gathered per (mapped) value except the new common value; the output starts as precedence[-1] and is overwritten from the lowest to the highest precedence; a per-row counter of columns not yet explained (initially the number of columns, decremented for the last precedence and for every value written while the common value has not been written yet) decides which rows take the common value when its turn comes",
     "R-C06-r": "every operation's result is a well-formed index (row lists sorted, unique, in range, non-empty): imported from the C07 analysis of the same operations",
     "R-C06-q": "filtered / reindexed / collapsed / copy / sliced / column_stack return a new index on every path, never the receiver or an argument (documented exception: sliced() without orders)",
@@ -1036,6 +1037,65 @@ def rule_j(prog, rep):
     rep.floor("R-C06-j", 2, n)
 
 
+def rule_s(prog, rep):
+    """R-C06-s: the set-update methods hand the result of intersection() / difference() / union() to set_if; those wrappers
+    return None for the EMPTY set, so under `value is None` (and under `len(value) == 0`) set_if must remove the key."""
+    ii = prog.cls("iindexes", "iindex")
+    fi = ii.methods.get("set_if")
+    if fi is None:
+        rep.undecided("R-C06-s", "iindexes:iindex", "set_if", "method not found (anchor vanished)")
+        return
+    where = fi.fq
+    # who passes a wrapper result (possibly None)?
+    callers = []
+    for meth in ("intersection_update", "difference_update", "union_update", "symmetric_difference_update"):
+        f2 = ii.methods.get(meth)
+        if f2 is None:
+            continue
+        I2 = Interp(prog, hints.param_types_for("iindexes"), hints.FIELD_TYPES, inline=False)
+        I2.run(f2)
+        for ev in I2.events:
+            if ev.kind == "call" and ev["method"] == "set_if" and len(ev["args"]) >= 2:
+                v = ev["args"][1]
+                if tm.contains(v, lambda x: x.op == "call" and (tm.callee_name(x) or "") in ("set_operations:intersection", "set_operations:difference", "set_operations:union")):
+                    callers.append("%s@%d" % (f2.qualname, ev.line))
+    params = [a for a in fi.params() if a not in ("self", "cls")]
+    if len(params) < 2:
+        rep.undecided("R-C06-s", where, "set_if(key, value)", "signature not recognised")
+        return
+    key, value = tm.param(params[0]), tm.param(params[1])
+    self_t = tm.param("self")
+    for label, want_none in (("value is None (the wrappers' encoding of the empty set)", True), ("value has length 0", False)):
+        def oracle(t, want_none=want_none):
+            if t.op == "cmp" and t.args[0] in ("is", "is not") and value in t.args[1:] and tm.NONE in t.args[1:]:
+                return (t.args[0] == "is") == want_none
+            if not want_none:
+                if t.op == "call" and tm.callee_name(t) == "builtins.len" and t.args[1] and t.args[1][0] == value:
+                    return False  # len(value) is falsy: empty
+                if t.op == "attr" and t.args[1] == "size" and t.args[0] == value:
+                    return False
+            if t == value:
+                return False  # truthiness of value itself: None / empty are both falsy
+            return None
+        I = Interp(prog, hints.param_types_for("iindexes"), hints.FIELD_TYPES, inline=False, oracle=oracle)
+        I.run(fi)
+        removed = [e for e in I.events if (e.kind == "del_sub" and e["base"] == self_t and e["index"] == key)
+                   or (e.kind == "call" and e["method"] in ("pop", "__delitem__") and e["recv"] == self_t and e["args"] and e["args"][0] == key)]
+        stored = [e for e in I.events if e.kind == "store_sub" and e["base"] == self_t]
+        cons = "set_if: %s -> the key is removed" % label
+        if removed and not stored:
+            rep.proved("R-C06-s", where, cons, "self.pop(key, ...) / del self[key] on this path")
+        elif stored:
+            rep.violated("R-C06-s", where, cons, "the (empty / None) value is stored instead of removing the key", witness={"history": "a.difference_update(b) where b covers every row of a category of a"})
+        elif not callers:
+            rep.undecided("R-C06-s", where, cons, "the key is not removed on this path, and no set-update method was found that passes a wrapper result to set_if")
+        else:
+            rep.violated("R-C06-s", where, cons,
+                         "the key is left as it is: %s pass the result of intersection() / difference() straight to set_if, and those return None when the result is EMPTY - the entry keeps its old rows although the update removed all of them"
+                         % ", ".join(sorted(set(callers))[:3]),
+                         witness={"history": "a = from_array([1,0,0,0,2,0,0,1]); a.difference_update({(1,): [0, 7]}): to_array() still shows category 1 in rows 0 and 7"})
+
+
 def main(tier):
     rep = core.Report("C06", level="other", rules=RULES, tier=tier,
                       declined="every sequence of index operations matches the NumPy model on the dense array (histories x values): not decidable by static analysis in reach; e.g. the collapsed() result for a precedence list that omits a present value is a value-level defect this check cannot see")
@@ -1055,6 +1115,8 @@ def main(tier):
     rule_n(prog, rep)
     rule_p(prog, rep)
     rule_q(prog, rep)
+    rule_s(prog, rep)
+    rep.floor("R-C06-s", 2, sum(1 for o in rep.obls if o.rule == "R-C06-s"))
     # R-C06-r: an operation's result behaves like the array only if it is a well-formed index (sorted, unique, in-range,
     # non-empty row lists - the later set algebra and cube walks rest on it): the C07 analysis of every operation
     import c07
